@@ -4,6 +4,8 @@ import KmipModel.Client
 import KmipModel.ExpectSkel
 import KmipGen.Schema
 import KmipGen.Skeleton
+import KmipProofs.WireLemmas
+import KmipProps.C01
 /-
   C14, generated obligations: the positions at which the client model reads the decoded Response are the fields
   client.go reads (checked against the schema regenerated from /repo), and the skeletons of Send / DiscoverVersions /
@@ -54,5 +56,114 @@ theorem GenC14_codec_src_desc : KmipGen.codecSrc_desc = ExpectCodec.codecSrc_des
 
 /-- dynamic dispatch (BuildFieldValue methods) -/
 theorem GenC14_codec_src_disp : KmipGen.codecSrc_disp = ExpectCodec.codecSrc_disp := by decide
+
+
+/-! ### Client.Send against the package's own Server, over the wire (message model of KmipModel/Wire.lean + the codec theorems)
+
+    Everything below is about the schema regenerated from /repo: the normalisation Decode applies (`normVal`) is computed on the
+    concrete Request / Response descriptors. -/
+set_option linter.unusedSimpArgs false
+open Kmip.Wire
+def wireZExt : Val := zeroSD KmipGen.sd_MessageExtension
+def wireZNonce : Val := zeroSD KmipGen.sd_Nonce
+
+/-- what Decode makes of a dynamically typed value that Encode wrote: a pointer payload comes back as a value payload -/
+def normDyn : DynV → DynV
+  | .nil => .nil
+  | .val _ ty v => .val false ty (normVal ty v)
+  | .bad k => .bad k
+
+theorem ite_int_self (n : Nat) : (if n = 0 then FV.one (Val.int 0) else FV.one (Val.int n)) = FV.one (Val.int n) := by
+  split
+  · rename_i h; rw [h]
+  · rfl
+theorem ite_enum_self (n : Nat) : (if n = 0 then FV.one (Val.enum 0) else FV.one (Val.enum n)) = FV.one (Val.enum n) := by
+  split
+  · rename_i h; rw [h]
+  · rfl
+theorem ite_text_self (m : Bytes) : (if m = [] then FV.one (Val.text []) else FV.one (Val.text m)) = FV.one (Val.text m) := by
+  split
+  · rename_i h; rw [h]
+  · rfl
+
+theorem reqView_norm_mkRequest (ver : Nat × Nat) (op : Nat) (p : DynV) :
+    reqView (normVal (.struct KmipGen.sd_Request) (mkRequest wireZExt ver op p)) =
+      some { version := .struct [.one (.int ver.1), .one (.int ver.2)], corr := [], async := false, credType := 0,
+             batchCount := 1, items := [{ op := op, uid := [], payload := normDyn p }] } := by
+  cases p <;>
+  simp [mkRequest, normVal, normFlds, normFV, normMany, KmipGen.sd_Request, KmipGen.sd_RequestHeader, KmipGen.sd_RequestBatchItem,
+    KmipGen.sd_ProtocolVersion, KmipGen.sd_Authentication, KmipGen.sd_MessageExtension, SD.fields, Fld.ignored, Fld.required, Fld.ty, Fld.tag, Fld.skip,
+    specZero, zeroFld, zeroVal, zeroSD, zeroFlds, zeroAuth, wireZExt, reqView, itemIn, anyTag, ite_int_self, normDyn,
+    rqHeader, rqItems, hVersion, hClientCorr, hAsync, hAuth, hBatchCount, aCredType, iOperation, iUniqueID, iPayload]
+
+/-- the Client's view of what Decode returns for the encoded single-item Response -/
+theorem respView_norm_respVal (clock : Nat) (ver : Val) (corr : Bytes) (it : ItemIn) (res : HRes) :
+    Client.respView (normVal (.struct KmipGen.sd_Response)
+        (respVal wireZNonce wireZExt clock (fun _ _ => res)
+          { version := ver, corr := corr, async := false, credType := 0, batchCount := 1, items := [it] })) =
+      some { batchCount := 1, items := [match res with
+        | .success q => { op := it.op, status := 0, reason := 0, msg := [], payload := normDyn q }
+        | .failed r m => { op := it.op, status := 1, reason := r, msg := m, payload := .nil }] } := by
+  cases res with
+  | success q =>
+    cases q <;>
+    simp [respVal, respItems, respItem, normVal, normFlds, normFV, normMany, KmipGen.sd_Response, KmipGen.sd_ResponseHeader, KmipGen.sd_ResponseBatchItem,
+      KmipGen.sd_MessageExtension, KmipGen.sd_Nonce, SD.fields, Fld.ignored, Fld.required, Fld.ty, Fld.tag, Fld.skip,
+      specZero, zeroFld, zeroVal, zeroSD, zeroFlds, wireZExt, wireZNonce, anyTag, ite_int_self, ite_enum_self, ite_text_self, normDyn,
+      Client.respView, Client.itemView, Client.posHeader, Client.posBatchItems, Client.posBatchCount, Client.posOperation,
+      Client.posResultStatus, Client.posResultReason, Client.posResultMessage, Client.posResponsePayload, statusSuccess, statusFailed]
+  | failed r m =>
+    simp [respVal, respItems, respItem, normVal, normFlds, normFV, normMany, KmipGen.sd_Response, KmipGen.sd_ResponseHeader, KmipGen.sd_ResponseBatchItem,
+      KmipGen.sd_MessageExtension, KmipGen.sd_Nonce, SD.fields, Fld.ignored, Fld.required, Fld.ty, Fld.tag, Fld.skip,
+      specZero, zeroFld, zeroVal, zeroSD, zeroFlds, wireZExt, wireZNonce, anyTag, ite_int_self, ite_enum_self, ite_text_self, normDyn,
+      Client.respView, Client.itemView, Client.posHeader, Client.posBatchItems, Client.posBatchCount, Client.posOperation,
+      Client.posResultStatus, Client.posResultReason, Client.posResultMessage, Client.posResponsePayload, statusSuccess, statusFailed]
+
+theorem GenC14_request_schema_ok : KmipGen.sd_Request.descOk = true ∧ SD.OK KmipGen.sd_Request = true ∧ KmipGen.sd_Request.tag < tagMax ∧
+    KmipGen.sd_Response.descOk = true ∧ SD.OK KmipGen.sd_Response = true ∧ KmipGen.sd_Response.tag < tagMax := by
+  decide +kernel
+
+/-- **End to end, through the bytes.**  `Client.Send(op, p)` builds a Request (`mkRequest`); whatever bytes `rb` Encode writes
+    for it, the Server's Decode of those bytes yields a Request of which `handleBatch` makes the Response `resp` shown below -
+    the handler (`H`) having seen the operation and the (normalised) payload the Client sent; and whatever bytes `sb` Encode
+    writes for that Response, the Client's Decode of them yields a value of which `Send` returns exactly the handler's
+    outcome: its payload on success, its result reason and message on failure.  Hypotheses: the two messages are well-formed
+    values of their types with lengths below 2^32 (`WFv`, `Small` - C01's side conditions), and Encode accepted them. -/
+theorem GenC14_e2e_over_the_wire (ver : Nat × Nat) (op : Nat) (p : DynV) (clock : Nat) (H : Nat → ItemIn → HRes)
+    (rb sb : Bytes) (fin1 fin2 : Fin)
+    (hwq : WFv (.struct KmipGen.sd_Request) (mkRequest wireZExt ver op p))
+    (hsq : (canonTop KmipGen.sd_Request (mkRequest wireZExt ver op p)).Small = true)
+    (heq : encodeSD KmipGen.sd_Request (mkRequest wireZExt ver op p) = .ok rb) :
+    ∃ rv d1 resp, decodeSD KmipGen.sd_Request rb fin1 = .ok (rv, rb.length, d1) ∧
+      handleBatch wireZNonce wireZExt clock true H rv = some resp ∧
+      (WFv (.struct KmipGen.sd_Response) resp → (canonTop KmipGen.sd_Response resp).Small = true →
+        encodeSD KmipGen.sd_Response resp = .ok sb →
+        ∃ cv d2, decodeSD KmipGen.sd_Response sb fin2 = .ok (cv, sb.length, d2) ∧
+          Client.send true true op (Client.respView cv) =
+            (match H 0 { op := op, uid := [], payload := normDyn p } with
+             | .success q => .payload (normDyn q)
+             | .failed r m => .failure r m)) := by
+  obtain ⟨hd1, hok1, ht1, hd2, hok2, ht2⟩ := GenC14_request_schema_ok
+  obtain ⟨d1, hdec⟩ := C01_roundtrip KmipGen.sd_Request _ rb fin1 hd1 hok1 ht1 hwq hsq heq
+  have hview := reqView_norm_mkRequest ver op p
+  refine ⟨_, d1, respVal wireZNonce wireZExt clock H
+      { version := .struct [.one (.int ver.1), .one (.int ver.2)], corr := [], async := false, credType := 0, batchCount := 1,
+        items := [{ op := op, uid := [], payload := normDyn p }] }, hdec, ?_, ?_⟩
+  · unfold handleBatch
+    rw [hview]
+    simp
+  · intro hwr hsr her
+    obtain ⟨d2, hdec2⟩ := C01_roundtrip KmipGen.sd_Response _ sb fin2 hd2 hok2 ht2 hwr hsr her
+    refine ⟨_, d2, hdec2, ?_⟩
+    have hr := respView_norm_respVal clock (.struct [.one (.int ver.1), .one (.int ver.2)]) [] { op := op, uid := [], payload := normDyn p }
+      (H 0 { op := op, uid := [], payload := normDyn p })
+    have heqv : respVal wireZNonce wireZExt clock H
+          { version := .struct [.one (.int ver.1), .one (.int ver.2)], corr := [], async := false, credType := 0, batchCount := 1,
+            items := [{ op := op, uid := [], payload := normDyn p }] } =
+        respVal wireZNonce wireZExt clock (fun _ _ => H 0 { op := op, uid := [], payload := normDyn p })
+          { version := .struct [.one (.int ver.1), .one (.int ver.2)], corr := [], async := false, credType := 0, batchCount := 1,
+            items := [{ op := op, uid := [], payload := normDyn p }] } := rfl
+    rw [heqv, hr]
+    cases H 0 { op := op, uid := [], payload := normDyn p } <;> simp [Client.send, Client.statusSuccess]
 
 end Kmip
